@@ -88,3 +88,19 @@ pub assume_specification [std::time::Duration::checked_mul] (a: std::time::Durat
 pub assume_specification [std::time::Duration::saturating_mul] (a: std::time::Duration, b: u32) -> (r: std::time::Duration)
     ensures dur(r) == (if dur(a) * (b as nat) > DUR_MAX() { DUR_MAX() } else { dur(a) * (b as nat) });
 }
+
+// tokio::time::timeout(D, FUT).await is rewritten (rule T-ASYNC) to `if fires(D) { Err(elapsed()) } else { Ok(FUT) }`: the time limit
+// fires and the future is dropped - modelled as never started - or the future runs to its end (a future cut half-way is not modelled)
+pub mod tokio_time {
+    use vstd::prelude::*;
+    verus! {
+    #[derive(Debug)]
+    pub struct Elapsed { pub x: u8 }
+    #[verifier::external]
+    impl std::fmt::Display for Elapsed { fn fmt(&self, f: &mut std::fmt::Formatter) -> std::fmt::Result { Ok(()) } }
+    #[verifier::external_body]
+    pub fn fires(d: std::time::Duration) -> bool { unimplemented!() }
+    #[verifier::external_body]
+    pub fn elapsed() -> Elapsed { unimplemented!() }
+    }
+}
